@@ -1066,31 +1066,112 @@ def part_c10(ctx, dat):
     return n
 
 
-def part_c14(ctx, dat):
-    """fused form vs documented composition, both sides on the implementation (values and gradients), exact"""
+IDENTITY_MODES = ("plain", "second-consumer-first", "second-consumer-last", "applied-twice", "two-backward-passes")
+
+
+def identity_sides(kind, p):
+    """(fused, composed, unit of the upstream gradients) of a C14 identity; p holds its arguments"""
     impl = _impl()
-    np, sg, TF, NF = impl.np, impl.synapgrad, impl.TF, impl.NF
+    TF, NF = impl.TF, impl.NF
+    dim = p.get("dim")
+    if isinstance(dim, list):
+        dim = tuple(dim)
+    if kind == "mean = sum / count":
+        kd, cnt = p["keepdims"], p["count"]
+        return (lambda t: TF.mean(t, dim, kd)), (lambda t: TF.sum(t, dim, kd) / cnt), MEAN_UNIT * 4
+    if kind == "stack = concat of unsqueezed":
+        return (lambda *t: TF.stack(list(t), dim)), (lambda *t: TF.concat([TF.unsqueeze(u, dim) for u in t], dim)), 1
+    if kind == "unbind inverts stack":
+        return (lambda *t: TF.unbind(TF.stack(list(t), dim), dim)), (lambda *t: tuple(u * 1.0 for u in t)), 1
+    if kind == "stack inverts unbind":
+        return (lambda t: TF.stack(TF.unbind(t, dim), dim)), (lambda t: t * 1.0), 1
+    if kind == "a - b = a + (-b)":
+        return (lambda a, b: a - b), (lambda a, b: TF.add(a, TF.neg(b))), 1
+    if kind == "a / b = a * b**-1":
+        return (lambda a, b: a / b), (lambda a, b: TF.mul(a, TF.pow(b, -1))), 1
+    if kind == "addmm = a + b @ c":
+        return (lambda a, b, c: TF.addmm(a, b, c)), (lambda a, b, c: TF.add(a, TF.matmul(b, c))), 1
+    if kind == "linear = x @ W.T + b":
+        return (lambda x, w, b: NF.linear(x, w, b)), (lambda x, w, b: TF.add(TF.matmul(x, TF.transpose(w, 0, 1)), b)), 1
+    if kind == "linear (no bias) = x @ W.T":
+        return (lambda x, w: NF.linear(x, w)), (lambda x, w: TF.matmul(x, TF.transpose(w, 0, 1))), 1
+    raise KeyError(kind)
+
+
+def identity_run_side(fn, inputs, mode, seed, unit):
+    """one side of an identity, alone or embedded in a larger graph; returns (outputs, leaf gradients)"""
+    impl = _impl()
+    np, sg, TF = impl.np, impl.synapgrad, impl.TF
+    impl.reset_modes()
+    ts = [sg.Tensor(np.array(x, dtype=np.float64), requires_grad=True) for x in inputs]
+
+    def apply():
+        out = fn(*ts)
+        return list(out) if isinstance(out, (tuple, list)) else [out]
+
+    def pairing(outs, gs):
+        tot = None
+        for o, g in zip(outs, gs):
+            term = TF.sum(TF.mul(o, sg.Tensor(g)))
+            tot = term if tot is None else tot + term
+        return tot
+    outs = apply()
+    gs = make_upstream({"gseed": seed}, [o.shape for o in outs], unit)
+    if mode == "plain":
+        for o, g in zip(outs, gs):
+            o.backward(sg.Tensor(g))
+    elif mode in ("second-consumer-first", "second-consumer-last"):
+        # every operand also feeds a second consumer; both orders of the two terms (= both orders of the closures in backward)
+        vs = make_upstream({"gseed": seed + 7919}, [t.shape for t in ts], unit)
+        other = pairing(ts, vs)
+        ident = pairing(outs, gs)
+        loss = other + ident if mode == "second-consumer-first" else ident + other
+        loss.backward()
+    elif mode == "applied-twice":
+        gs2 = make_upstream({"gseed": seed + 104729}, [o.shape for o in outs], unit)
+        loss = pairing(outs, gs) + pairing(apply(), gs2)
+        loss.backward()
+    else:   # two backward passes over the same leaves without zeroing
+        for o, g in zip(outs, gs):
+            o.backward(sg.Tensor(g))
+        for o, g in zip(apply(), gs):
+            o.backward(sg.Tensor(g))
+    return [np.asarray(o.data) for o in outs], [t._grad if t._grad is not None else np.zeros(t.shape) for t in ts]
+
+
+def identity_compare(kind, p, inputs, mode, seed):
+    """None if the fused and the composed side agree exactly on outputs and on every leaf gradient, else (fused, composed)"""
+    np = _impl().np
+    f, h, unit = identity_sides(kind, p)
+    try:
+        o1, g1 = identity_run_side(f, inputs, mode, seed, unit)
+        o2, g2 = identity_run_side(h, inputs, mode, seed, unit)
+    except Exception as ex:
+        return ("raised %r" % (ex,), None)
+    same = len(o1) == len(o2) and all(a.shape == b.shape and np.array_equal(a, b) for a, b in zip(o1, o2)) and \
+        all(a.shape == b.shape and np.array_equal(a, b) for a, b in zip(g1, g2))
+    if same:
+        return None
+    return ({"outputs": [a.tolist() for a in o1], "leaf_grads": [a.tolist() for a in g1]}, {"outputs": [a.tolist() for a in o2], "leaf_grads": [a.tolist() for a in g2]})
+
+
+def part_c14(ctx, dat):
+    """fused form vs documented composition, both sides on the implementation (values and gradients), exact; each identity alone
+    and embedded in a larger graph"""
+    impl = _impl()
+    np = impl.np
     rng = ctx.rng
     viol = []
     n = 0
 
-    def both(name, inputs, f, h, unit=1):
+    def both(kind, inputs, **p):
         nonlocal n
-        n += 1
-        res = []
-        for fn in (f, h):
-            ts = [sg.Tensor(x.copy(), requires_grad=True) for x in inputs]
-            out = fn(*ts)
-            outs = list(out) if isinstance(out, (tuple, list)) else [out]
-            gs = make_upstream({"gseed": n}, [o.shape for o in outs], unit)
-            for o, g in zip(outs, gs):
-                o.backward(sg.Tensor(g))
-            res.append(([np.asarray(o.data) for o in outs], [t._grad for t in ts]))
-        (o1, g1), (o2, g2) = res
-        same = len(o1) == len(o2) and all(a.shape == b.shape and np.array_equal(a, b) for a, b in zip(o1, o2)) and \
-            all(a.shape == b.shape and np.array_equal(a, b) for a, b in zip(g1, g2))
-        if not same:
-            viol.append((name, [x.tolist() for x in inputs], [[a.tolist() for a in o1], [a.tolist() for a in g1]], [[a.tolist() for a in o2], [a.tolist() for a in g2]]))
+        for mode in IDENTITY_MODES:
+            n += 1
+            r = identity_compare(kind, p, inputs, mode, n)
+            if r is not None:
+                viol.append(({"identity": kind, "args": p, "mode": mode, "seed": n, "inputs": [np.asarray(x).tolist() for x in inputs],
+                              "shapes": [list(np.asarray(x).shape) for x in inputs]}, r))
     shapes = [s for s in shapes_upto(3) if len(s) >= 1]
     for sh in shapes:
         nd = len(sh)
@@ -1098,28 +1179,30 @@ def part_c14(ctx, dat):
             for kd in (False, True):
                 x = dat.arr(sh, unit=MEAN_UNIT)
                 cnt = x.size if dim is None else int(np.prod([sh[d] for d in ((dim,) if isinstance(dim, int) else dim)]))
-                both("mean = sum / count", [x], lambda t: TF.mean(t, dim, kd), lambda t: TF.sum(t, dim, kd) / cnt, unit=MEAN_UNIT * 4)
+                both("mean = sum / count", [x], dim=dim, keepdims=kd, count=cnt)
         if nd <= 2:
             for dim in range(-nd - 1, nd + 1):
                 xs = [dat.arr(sh) for _ in range(rng.choice((1, 2, 3)))]
-                both("stack = concat of unsqueezed", xs, lambda *t: TF.stack(list(t), dim), lambda *t: TF.concat([TF.unsqueeze(u, dim) for u in t], dim))
-                both("unbind inverts stack", xs, lambda *t: TF.unbind(TF.stack(list(t), dim), dim), lambda *t: tuple(u * 1.0 for u in t))
+                both("stack = concat of unsqueezed", xs, dim=dim)
+                both("unbind inverts stack", xs, dim=dim)
+        for dim in range(-nd, nd):
+            both("stack inverts unbind", [dat.arr(sh)], dim=dim)
         y = dat.arr(sh[-1:])
-        both("a - b = a + (-b)", [dat.arr(sh), y], lambda a, b: a - b, lambda a, b: TF.add(a, TF.neg(b)))
-        p = np.array([rng.choice([1, -1, 2, -2, 4, 0.5]) for _ in range(int(np.prod(sh[-1:])))], dtype=np.float64).reshape(sh[-1:])
-        both("a / b = a * b**-1", [dat.arr(sh) * 8, p], lambda a, b: a / b, lambda a, b: TF.mul(a, TF.pow(b, -1)))
+        both("a - b = a + (-b)", [dat.arr(sh), y])
+        pw = np.array([rng.choice([1, -1, 2, -2, 4, 0.5]) for _ in range(int(np.prod(sh[-1:])))], dtype=np.float64).reshape(sh[-1:])
+        both("a / b = a * b**-1", [dat.arr(sh) * 8, pw])
     for sa, sb, sc in (((2,), (3, 2, 3), (3, 2)), ((2, 2), (2, 3), (3, 2)), ((), (2, 3), (3, 1)), ((3, 1, 2), (2, 3), (3, 3, 2)), ((1, 2), (2, 2, 3), (2, 3, 2))):
-        both("addmm = a + b @ c", [dat.arr(sa), dat.arr(sb, lo=-9, hi=9), dat.arr(sc, lo=-9, hi=9)], lambda a, b, c: TF.addmm(a, b, c), lambda a, b, c: TF.add(a, TF.matmul(b, c)))
+        both("addmm = a + b @ c", [dat.arr(sa), dat.arr(sb, lo=-9, hi=9), dat.arr(sc, lo=-9, hi=9)])
     for xs in ((2, 3), (1, 3), (2, 2, 3), (3, 1, 3), (2, 2, 2, 3)):
         for out in (1, 2):
-            both("linear = x @ W.T + b", [dat.arr(xs, lo=-9, hi=9), dat.arr((out, 3), lo=-9, hi=9), dat.arr((out,))],
-                 lambda x, w, b: NF.linear(x, w, b), lambda x, w, b: TF.add(TF.matmul(x, TF.transpose(w, 0, 1)), b))
-            both("linear (no bias) = x @ W.T", [dat.arr(xs, lo=-9, hi=9), dat.arr((out, 3), lo=-9, hi=9)],
-                 lambda x, w: NF.linear(x, w), lambda x, w: TF.matmul(x, TF.transpose(w, 0, 1)))
+            both("linear = x @ W.T + b", [dat.arr(xs, lo=-9, hi=9), dat.arr((out, 3), lo=-9, hi=9), dat.arr((out,))])
+            both("linear (no bias) = x @ W.T", [dat.arr(xs, lo=-9, hi=9), dat.arr((out, 3), lo=-9, hi=9)])
     ctx.extra["c14_identity_cases"] = n
-    ctx.notes.append("C14 oracle (implementation only): %d instances of mean=sum/count, stack=concat∘unsqueeze, unbind∘stack=id, a-b, a/b, addmm, linear; values and all operand gradients compared exactly" % n)
-    for name, inp, l, r in viol[:1]:
-        ctx.witness("identity: " + name, "fused vs composition", {"identity": name, "inputs": inp}, {"composition (outputs, grads)": r}, {"fused (outputs, grads)": l})
+    ctx.notes.append("C14 oracle (implementation only): %d instances of mean=sum/count, stack=concat∘unsqueeze, unbind∘stack=id, stack∘unbind=id, a-b, a/b, addmm, linear, "
+                     "each alone and embedded in a larger graph (operands with a second consumer in both term orders, the identity applied twice, two backward passes without zeroing); "
+                     "values and all leaf gradients of the fused and the composed side compared exactly" % n)
+    for inp, (l, r) in viol[:1]:
+        ctx.witness("identity: " + inp["identity"], "fused vs composition [%s]" % inp["mode"], inp, {"composed side": r}, {"fused side": l})
     return n
 
 
@@ -1157,7 +1240,7 @@ STREAMS = [
 BY_PID = {"C01": ["add", "mul", "reductions", "matmul", "addmm-linear", "concat-stack-unbind", "overloads", "same-operand", "unb"],
           "C05": ["add", "reductions", "matmul", "addmm-linear", "concat-stack-unbind", "overloads", "divq", "dimtypes", "scalardtype"],
           "C10": ["unb", "c10", "mul", "scalardtype"],
-          "C14": ["c14", "addmm-linear", "divq", "overloads"]}
+          "C14": ["c14", "addmm-linear", "divq", "overloads", "same-operand"]}
 
 
 def run_part(ctx, parts=None, as_pid=None):
@@ -1203,6 +1286,11 @@ def run_part(ctx, parts=None, as_pid=None):
 def replay(ctx, data):
     """re-run a stored witness of this part on the implementation; returns 1 if it still fails"""
     inp = data.get("input", {})
+    if "identity" in inp and "mode" in inp:
+        r = identity_compare(inp["identity"], inp.get("args", {}), [_impl().np.array(x, dtype="float64").reshape(s) for x, s in zip(inp["inputs"], inp["shapes"])], inp["mode"], inp.get("seed", 1))
+        print("identity", inp["identity"], inp.get("args"), "mode", inp["mode"])
+        print("fused / composed:", r)
+        return 1 if r is not None else 0
     if "op" not in inp or "operands" not in inp:
         print(json.dumps(data, indent=1)[:2000])
         return 1
